@@ -72,6 +72,26 @@ CLAIMS["C08"] = (
     "DESIGN.md section 5 C08",
 )
 
+CLAIMS["C09"] = (
+    "classification of every await by bounding construct (fixpoint over the call graph) with constant folding of the bounds; exception-class table rules on the CFG; single guarded writer of the fatal cause",
+    "Decides statically: every await of connection.py/client.py is bounded by a recognised construct whose constant folds to the documented "
+    "value for its role (resolve 30, TCP 60 per attempt with a shrinking address list, handshake 30, hello/login 30, disconnect 5+10, request "
+    "= caller's timeout, default 10) (R1); the connect phases catch everything and re-raise the wrapper's result, every return of which is an "
+    "APIConnectionError subclass, timeouts/OS errors map to the documented classes, waiters are failed with wrapped causes, write failures "
+    "are reported then re-raised as SocketClosedAPIError (R2); the fatal cause has one writer guarded by 'unset' and is recorded before the "
+    "closer runs (R3). Necessary structure of the property; actual completion instants and hangs inside third-party awaitables are not decided.",
+    "DESIGN.md section 5 C09",
+)
+CLAIMS["C10"] = (
+    "who-may-write + guard truth tables on the tick/dispatcher CFGs + symbolic (linear) evaluation of the deadline expressions",
+    "Decides statically: the pending-ping flag protocol (three writers; every successfully parsed message of any type clears the flag and "
+    "cancels an armed pong timer before delivery; ping sent iff the flag is set) (R1); the pong deadline is armed iff a ping is sent while "
+    "none is pending, equals now + 4.5*keepalive symbolically, and its expiry reports PingFailedAPIError through the fatal path (R2); every "
+    "normal exit of the tick re-arms at now + keepalive, keepalive starts only after hello/login, default interval 20 s (R3). The detection "
+    "window (5.5K, 6.5K] follows from these over time and is not decided as a number.",
+    "DESIGN.md section 5 C10",
+)
+
 UNDER_CONSTRUCTION = "rule set not built yet in this round (see DESIGN.md section 5 for the planned static rules)"
 
 NOT_APPLICABLE = {}
